@@ -943,6 +943,234 @@ class Gen:
             xs.append(None if store == "value" else S("emit", self.pn(sc)))
         return S("cond", *xs)
 
+    # ------------------------------------------------------------------ same-name locals: inner one captured, outer one used afterwards
+    SHD_KINDS = ["do", "do", "do-do", "upscope-do", "if-do", "if-else", "when", "unless", "let", "cond", "while", "for", "fn-param"]
+    SHD_VALUE_KINDS = ["do", "do", "do-do", "upscope-do", "if-do", "if-else", "let", "cond", "fn-param"]
+
+    def shadowed_captures(self, sc, d):
+        """A local X (def or var) of the enclosing scope; then 1-3 nested scopes (do / do in do / upscope+do / if branch /
+        else branch / when / unless / let binding / cond branch / while body / for body / function parameter) in which ANOTHER
+        local of the same name X is defined (def, var, let binding, parameter; its initialiser may read the enclosing X) and is
+        captured by a closure that reads it or counts on it; the closure is called on the spot, or escapes into an array / a var
+        that lives outside, or the nest is used as a value in a call whose next argument is X.  AFTER the inner scope has
+        closed, X is used again where it means the OUTER local: read, read as a call argument, read inside another closure,
+        in an if branch, in a loop body, copied into a later local, assigned (set / ++ / += / set inside a closure) when it
+        is a var; intermediate levels that have their own X do the same after the deeper level closed.  Then the escaped
+        closures run (they still mean the inner X) and the outer X is observed once more.  A name whose scope has closed must
+        not resolve any more, whether or not its register is kept alive for a closure."""
+        r = self.r
+        self.features.add("shadowed-captures")
+        self.spend(6)
+        X = self.fresh("x", sc, noshadow=True)
+        self.reserved.add(X)
+        omut = r.chance(1, 2)
+        self.features.add("shd-outer-" + ("var" if omut else "def"))
+        out = [S("var" if omut else "def", X, self.pn(sc))]
+        sc.vars[X] = ("n", omut)
+        store = r.choice(["none", "none", "array", "array", "var", "value"])
+        self.features.add("shd-store-" + store)
+        G = None
+        if store in ("array", "var"):
+            G = self.fresh("g", sc, noshadow=True)
+            self.reserved.add(G)
+            out.append(S("def", G, Lit("arr", [])) if store == "array" else S("var", G, None))
+        f0 = None
+        if r.chance(1, 4):            # the outer X is captured as well (before the nest)
+            self.features.add("shd-outer-captured")
+            f0 = self.fresh("f", sc, noshadow=True)
+            self.reserved.add(f0)
+            out.append(S("def", f0, S("fn", B(), S("+", X, r.range(0, 3)))))
+        levels = r.choice([1, 1, 2, 2, 2, 3])
+        self.features.add("shd-levels-%d" % levels)
+        nest = self._shd_level(sc, d + 1, X, G, store, 1, levels)
+        if store == "value":
+            # the later read is the next argument of the same call
+            out.append(S("emit", S("tuple", nest, Sym(X), *([S("+", X, r.range(1, 5))] if r.chance(1, 2) else []))))
+        else:
+            out.append(nest)
+        out += self._shd_uses(sc, d, X, omut, r.range(1, 3))
+        if G is not None:
+            calls = self._esc_calls(G, store)
+            out.append(calls())
+            if r.chance(1, 2):
+                out += self._shd_uses(sc, d, X, omut, 1)
+                out.append(calls())
+        if f0 is not None:
+            out.append(S("emit", S(f0)))
+        return S("upscope", *out)
+
+    def _shd_closure(self, X, mut):
+        """0-ary closure over the (innermost visible) X: reads it; counts on it when it is a var"""
+        r = self.r
+        body = []
+        if mut and r.chance(2, 3):
+            self.features.add("shd-counter")
+            body.append(S("set", X, S("+", X, r.range(1, 3))) if r.chance(2, 3) else S("++", X))
+        c = r.below(3)
+        body.append(Sym(X) if c == 0 else S("+", X, r.range(0, 3)) if c == 1 else S("+", X, "a"))
+        return S("fn", B(), *body)
+
+    def _shd_uses(self, sc, d, X, mut, k):
+        """k uses of X in scope sc (X means sc's own / enclosing local here), each observed through emit"""
+        r = self.r
+        out = []
+        for _ in range(k):
+            c = r.below(14 if mut else 9)
+            if c == 0:
+                self.features.add("shd-use-read")
+                out.append(S("emit", Sym(X)))
+            elif c == 1:
+                self.features.add("shd-use-call-arg")
+                out.append(S("emit", S("tuple", r.range(0, 9), Sym(X), S("+", X, r.range(1, 5)))))
+            elif c == 2:
+                self.features.add("shd-use-in-closure")
+                out.append(S("emit", S(S("fn", B(), S("+", X, r.range(0, 3)) if r.chance(1, 2) else Sym(X)))))
+            elif c == 3:
+                self.features.add("shd-use-in-if-branch")
+                want = r.chance(1, 2)
+                out.append(S("if", self._esc_cond(sc, d, want), S("emit", S("+", X, 100)), S("emit", S("-", X, 100))))
+            elif c == 4:
+                self.features.add("shd-use-in-loop-body")
+                i = self.fresh("i", sc, noshadow=True)
+                self.reserved.add(i)
+                out.append(S("for", i, 0, r.range(1, 3), S("emit", S("+", X, i))))
+            elif c == 5:
+                self.features.add("shd-use-in-loop-body")
+                w = self.fresh("w", sc, noshadow=True)
+                self.reserved.add(w)
+                out.append(S("upscope", S("var", w, 0), S("while", S("<", w, r.range(1, 3)), S("emit", S("*", X, S("+", w, 1))), S("++", w))))
+            elif c == 6:
+                self.features.add("shd-use-later-local")
+                y = self.fresh("y", sc, noshadow=True)
+                self.reserved.add(y)
+                out.append(S("def", y, Sym(X)) if r.chance(1, 2) else S("var", y, S("+", X, r.range(1, 5))))
+                sc.vars[y] = ("n", out[-1].xs[0].name == "var")
+                out.append(S("emit", B(y, X)))
+            elif c == 7:
+                self.features.add("shd-use-in-do")
+                out.append(S("do", S("def", "t_", S("*", X, 2)), S("emit", S("+", "t_", X))))
+            elif c == 8:
+                self.features.add("shd-use-random-expr")
+                out.append(S("emit", S("+", X, self.n(sc, d + 1))))
+            elif c < 11:
+                self.features.add("shd-use-set")
+                out.append(S("set", X, S("+", X, r.range(1, 5))))
+                out.append(S("emit", Sym(X)))
+            elif c == 11:
+                self.features.add("shd-use-set")
+                out.append(S("++", X) if r.chance(1, 2) else S("+=", X, r.range(2, 5)))
+                out.append(S("emit", Sym(X)))
+            elif c == 12:
+                self.features.add("shd-use-set-in-closure")
+                out.append(S(S("fn", B(), S("set", X, S("+", X, r.range(1, 5))))))
+                out.append(S("emit", Sym(X)))
+            else:
+                self.features.add("shd-use-set-in-branch")
+                out.append(S("when", self._esc_cond(sc, d, True), S("set", X, S("-", X, r.range(1, 5)))))
+                out.append(S("emit", Sym(X)))
+        return out
+
+    def _shd_level(self, cur, d, X, G, store, level, levels):
+        r = self.r
+        self.spend(4)
+        value = store == "value"
+        innermost = level >= levels
+        kind = r.choice(self.SHD_VALUE_KINDS if value else self.SHD_KINDS)
+        self.features.add("shd-" + kind)
+        inner = Scope(cur, fn=(kind == "fn-param"), loop=kind in ("while", "for"))
+        binds_x = kind in ("let", "fn-param")
+        defines = innermost or binds_x or r.chance(1, 2)
+        emut = cur.all()[X][1]            # the enclosing X
+        body = []
+        if not binds_x and r.chance(1, 4):
+            self.features.add("shd-enclosing-read-before-shadowed")
+            body.append(S("emit", Sym(X)))
+
+        def init():
+            c = r.below(4)
+            if c == 0:
+                self.features.add("shd-init-reads-enclosing")
+                return S("+", X, r.choice([10, 20, 100]))
+            if c == 1:
+                self.features.add("shd-init-reads-enclosing")
+                return S("*", X, r.range(2, 3))
+            if c == 2:
+                return self.pn(cur)
+            return r.range(20, 99)
+        xinit = init() if defines else None
+        mut = emut
+        if defines:
+            mut = (not binds_x) and r.chance(1, 2)
+            self.features.add("shd-inner-" + ("binding" if binds_x else "var" if mut else "def"))
+            if not binds_x:
+                body.append(S("var" if mut else "def", X, xinit))
+            inner.vars[X] = ("n", mut)
+        if defines or r.chance(1, 3):
+            # closure(s) over the innermost visible X
+            disp = r.choice(["call", "call", "iife"]) if store in ("none", "value") else r.choice(["escape", "escape", "escape", "call+escape"])
+            self.features.add("shd-closure-" + disp)
+            if "call" in disp:
+                f = self.fresh("f", inner, noshadow=True)
+                self.reserved.add(f)
+                body.append(S("def", f, self._shd_closure(X, mut)))
+                inner.vars[f] = ("f0", False)
+                body.append(S("emit", S(f)))
+                if mut and r.chance(1, 2):
+                    body.append(S("emit", S("tuple", S(f), X)))
+            if disp == "iife":
+                body.append(S("emit", S(self._shd_closure(X, mut))))
+            if "escape" in disp:
+                clo = self._shd_closure(X, mut)
+                body.append(S("array/push", G, clo) if store == "array" else S("set", G, clo))
+        if r.chance(1, 5) and not self.low(d) and kind != "fn-param":
+            body.append(self.stmt(inner, d + 1))
+        if not innermost:
+            body.append(self._shd_level(inner, d + 1, X, G, "none" if value else store, level + 1, levels))
+            if defines or r.chance(1, 2):
+                # this level's X (or the enclosing one seen through this level) after the deeper scope closed
+                self.features.add("shd-intermediate-use")
+                body += self._shd_uses(inner, d, X, mut, 1)
+        if value:
+            c = r.below(3)
+            body.append(Sym(X) if c == 0 else S(S("fn", B(), X)) if c == 1 else S("+", X, 1))
+        # ---- wrap
+        if kind == "do":
+            return S("do", *body)
+        if kind == "do-do":
+            return S("do", S("emit", self.pn(cur)), S("do", *body)) if r.chance(1, 2) else S("do", S("do", *body))
+        if kind == "upscope-do":
+            return S("upscope", S("do", *body))
+        if kind == "let":
+            return S("let", B(X, xinit), *body)
+        if kind == "fn-param":
+            return S(S("fn", B(X), *body), xinit)
+        if kind == "while":
+            w = self.fresh("w", cur, noshadow=True)
+            self.reserved.add(w)
+            return S("upscope", S("var", w, 0), S("while", S("<", w, r.range(1, 2)), *body, S("++", w)))
+        if kind == "for":
+            i = self.fresh("i", cur, noshadow=True)
+            self.reserved.add(i)
+            return S("for", i, 0, r.range(1, 2), *body)
+        blk = S("do", *body)
+        if kind == "if-do":
+            els = [S("+", X, 1000)] if value else ([] if r.chance(1, 2) else [S("emit", self.pn(cur))])
+            return S("if", self._esc_cond(cur, d, True), blk, *els)
+        if kind == "if-else":
+            return S("if", self._esc_cond(cur, d, False), S("+", X, 1000) if value else None if r.chance(1, 2) else S("emit", self.pn(cur)), blk)
+        if kind == "when":
+            return S("when", self._esc_cond(cur, d, True), *body)
+        if kind == "unless":
+            return S("unless", self._esc_cond(cur, d, False), *body)
+        # cond: the nest is the branch at a random position, earlier conditions are false
+        xs = []
+        for _ in range(r.range(0, 2)):
+            xs += [self._esc_cond(cur, d, False), S("-", X, 1000) if value else S("emit", self.pn(cur))]
+        xs += [self._esc_cond(cur, d, True), blk]
+        if r.chance(1, 2):
+            xs.append(S("-", X, 2000) if value else S("emit", self.pn(cur)))
+        return S("cond", *xs)
+
     # ------------------------------------------------------------------ statements
     def loop_body(self, inner, d):
         r = self.r
@@ -971,10 +1199,14 @@ class Gen:
             f = S("def" if c == 1 else "var", nm, self.n(sc, d + 1))
             sc.vars[nm] = ("n", c == 2)
             return f
-        c = r.below(47)
+        c = r.below(48)
         if c == 46:
             if self.closures:
                 return self.escaping_closures(sc, d)
+            return S("emit", self.x(sc, d + 1))
+        if c == 47:
+            if self.closures:
+                return self.shadowed_captures(sc, d)
             return S("emit", self.x(sc, d + 1))
         if c < 5:
             nm = self.fresh("x", sc)
